@@ -3,5 +3,6 @@ import PyodaProofs.C03
 import PyodaProofs.C04
 import PyodaProofs.C04Spec
 import PyodaProofs.C05
+import PyodaProofs.C16
 import PyodaProofs.C18
 import PyodaProofs.C19
